@@ -128,14 +128,13 @@ theorem footer_points_to_toc (F : Fmt) (ms : List Member) (toc : List TocEnt) (t
 
 /-! ## Writer (AppendTar / AppendTarLossLess / Close) -/
 
-/-- Writer runs: index consistency.  PARTIAL: proved when `MinChunkSize = 0` or `AppendTar` is
-called once.  See `WriterIndexConsistentFull` / `writerIndexConsistentFull_false`. -/
-theorem writer_index_consistent_partial (P : Params) (F : Fmt) (calls : List (List TarEnt × Bytes))
+/-- Writer runs: index consistency at full strength - any number of `AppendTar` /
+`AppendTarLossLess` calls, any `MinChunkSize` (every call starts on a new member since 6f1f089). -/
+theorem writer_index_consistent (P : Params) (F : Fmt) (calls : List (List TarEnt × Bytes))
     (tocTar : List TocEnt → Bytes) (orcF orcC : List Nat) (a : Nat) (b : Blob) (hc : 0 < P.chunk)
-    (hcalls : P.minChunk = 0 ∨ calls.length ≤ 1)
     (h : writerRun P F calls tocTar orcF orcC a = some b) :
     AllPos b.members ∧ IndexOK b.members (callEnts calls) b.toc := by
-  obtain ⟨ms, hpos, _, hb, _, _, hag⟩ := writerRun_spec hc True (fun _ => hcalls) h
+  obtain ⟨ms, hpos, _, hb, _, _, hag⟩ := writerRun_spec hc True h
   have hpos' := wtf_pos F ms (sumClen ms) b.toc (tocTar b.toc) a (streamOf ms) hpos
   rw [← hb] at hpos'
   refine ⟨hpos', ?_⟩
@@ -143,27 +142,32 @@ theorem writer_index_consistent_partial (P : Params) (F : Fmt) (calls : List (Li
   rw [← hb] at hext
   exact (AllGood.mono (hag trivial) hext (fun _ h => h)).indexOK hpos'
 
-/-- The full-strength statement for the Writer (any number of `AppendTar` calls, any
-`MinChunkSize`). It is FALSE for the code as written: the second `AppendTar` call re-initialises
-`prevOffset := w.cw.n` (mid-stream) and `prevOffsetUncompressed := 0`. -/
-def WriterIndexConsistentFull : Prop :=
+/-- Documented counterexample: the statement above is FALSE for `appendTar` as it was before
+commit 6f1f089 (`writerRunOld`: no `closeGz` at the start of a call, `prevOffset := w.cw.n` read
+mid-stream, `prevOffsetUncompressed := 0`). -/
+def OldWriterIndexConsistent : Prop :=
   ∀ (P : Params) (F : Fmt) (calls : List (List TarEnt × Bytes)) (tocTar : List TocEnt → Bytes)
     (orcF orcC : List Nat) (a : Nat) (b : Blob), 0 < P.chunk →
-    writerRun P F calls tocTar orcF orcC a = some b → IndexOK b.members (callEnts calls) b.toc
+    writerRunOld P F calls tocTar orcF orcC a = some b → IndexOK b.members (callEnts calls) b.toc
 
 /-- Witness: MinChunkSize 1000, two `AppendTar` calls with one 1-byte file each, a compressor that
-emits 5 bytes at the first flush.  The second file is recorded at Offset 5, which is inside the
-only member (replayed on the real code every run, oracle signature
-`writer-minchunk-second-appendtar`). -/
+emits 5 bytes at the first flush.  The old code records the second file at Offset 5, inside the
+only member.  The same calls on the real (repaired) code are a regression scenario of the harness
+(oracle signature `writer-minchunk-second-appendtar`). -/
 def witnessCalls : List (List TarEnt × Bytes) :=
   [([⟨"a", .reg, false, [0], [1], []⟩], []), ([⟨"b", .reg, false, [2], [3], []⟩], [])]
 
-theorem writerIndexConsistentFull_false : ¬ WriterIndexConsistentFull := by
+theorem old_appendTar_breaks_index : ¬ OldWriterIndexConsistent := by
   intro hfull
   have key := hfull ⟨4, 1000, [], false⟩ .gzip witnessCalls (fun _ => []) [5] [] 0 _ (by decide) rfl
   obtain ⟨e, _, _, _, _, hs, _⟩ := key ⟨"b", .reg, 1, 5, 3, 0, 0⟩ (by decide) (by decide)
   rw [show specRead _ _ e.data.length = none from rfl] at hs
   exact absurd hs (by simp)
+
+/-- ... and the repaired code reads both files of the witness. -/
+example : ((writerRun ⟨4, 1000, [], false⟩ .gzip witnessCalls (fun _ => []) [5] [] 0).map
+    (fun b => (b.toc.map (fun x => (x.offset, x.innerOffset)),
+      checkIndex b.toc b.members [⟨"a", [1]⟩, ⟨"b", [3]⟩]))) = some ([(0, 1), (6, 1)], true) := by decide
 
 /-- Writer runs: the TOC is the sequence of entry groups, chunks tile each file - any number of
 calls, any `MinChunkSize`. -/
@@ -171,7 +175,7 @@ theorem writer_chunks_tile_file (P : Params) (F : Fmt) (calls : List (List TarEn
     (tocTar : List TocEnt → Bytes) (orcF orcC : List Nat) (a : Nat) (b : Blob) (hc : 0 < P.chunk)
     (h : writerRun P F calls tocTar orcF orcC a = some b) :
     ∃ gs, b.toc = gs.flatten ∧ Forall2 EntryToc (keep (callEnts calls)) gs := by
-  obtain ⟨_, _, _, _, _, hgs, _⟩ := writerRun_spec hc False (fun h => h.elim) h
+  obtain ⟨_, _, _, _, _, hgs, _⟩ := writerRun_spec hc False h
   exact hgs
 
 /-- Writer runs: decompression = the entries' tar streams (+ kept tails in lossless mode) + the
@@ -180,14 +184,14 @@ theorem writer_stream_is_input_plus_additions (P : Params) (F : Fmt)
     (calls : List (List TarEnt × Bytes)) (tocTar : List TocEnt → Bytes) (orcF orcC : List Nat)
     (a : Nat) (b : Blob) (hc : 0 < P.chunk) (h : writerRun P F calls tocTar orcF orcC a = some b) :
     streamOf b.members = callStream P calls ++ tocAddition F (tocTar b.toc) := by
-  obtain ⟨ms, _, hst, hb, _, _, _⟩ := writerRun_spec hc False (fun h => h.elim) h
+  obtain ⟨ms, _, hst, hb, _, _, _⟩ := writerRun_spec hc False h
   rw [hb, wtf_stream, hst, wtf_toc]
 
 theorem diffid_is_hash_of_stream (P : Params) (F : Fmt) (calls : List (List TarEnt × Bytes))
     (tocTar : List TocEnt → Bytes) (orcF orcC : List Nat) (a : Nat) (b : Blob) (hc : 0 < P.chunk)
     (h : writerRun P F calls tocTar orcF orcC a = some b) :
     b.hashed = streamOf b.members := by
-  obtain ⟨ms, _, _, hb, _, _, _⟩ := writerRun_spec hc False (fun h => h.elim) h
+  obtain ⟨ms, _, _, hb, _, _, _⟩ := writerRun_spec hc False h
   rw [hb, wtf_stream, wtf_hashed]
 
 /-- Lossless mode: whenever the run succeeds, the decompressed layer is the input, byte for byte
@@ -196,7 +200,7 @@ theorem lossless_roundtrip (P : Params) (F : Fmt) (calls : List (List TarEnt × 
     (tocTar : List TocEnt → Bytes) (orcF orcC : List Nat) (a : Nat) (b : Blob) (hc : 0 < P.chunk)
     (hl : P.lossless = true) (h : writerRun P F calls tocTar orcF orcC a = some b) :
     streamOf b.members = inputBytes calls ++ tocAddition F (tocTar b.toc) := by
-  obtain ⟨ms, _, hst, hb, hlos, _, _⟩ := writerRun_spec hc False (fun h => h.elim) h
+  obtain ⟨ms, _, hst, hb, hlos, _, _⟩ := writerRun_spec hc False h
   rw [hb, wtf_stream, hst, wtf_toc, callStream_lossless P hl calls (hlos hl)]
 
 /-! ## The verified checker (translation validation of each real blob) -/
